@@ -199,6 +199,16 @@ func (p *gprover) canonV(v ssa.Value) ssa.Value {
 			p.canon[k] = v
 			return v
 		}
+		// a variable's own cell (possibly captured by a closure that only reads it): loads taken after the last
+		// store can have executed see the same value
+		if cell, ok := x.X.(*ssa.Alloc); ok && settledLoad(cell, x) {
+			k := fmt.Sprintf("cell/%p", cell)
+			if r, ok := p.canon[k]; ok {
+				return r
+			}
+			p.canon[k] = v
+			return v
+		}
 		var al *ssa.Alloc
 		path := ""
 		switch a := x.X.(type) {
@@ -1151,4 +1161,54 @@ func isIndexSearch(call *ssa.Call) bool {
 		return true
 	}
 	return false
+}
+
+// settledLoad: no store into the cell can execute after this load (in the function or in a closure that
+// captures the cell), so every such load sees the cell's final value.
+func settledLoad(cell *ssa.Alloc, load *ssa.UnOp) bool {
+	for _, r := range *cell.Referrers() {
+		switch y := r.(type) {
+		case *ssa.Store:
+			if y.Addr != ssa.Value(cell) {
+				return false // the cell's address is stored somewhere
+			}
+			if y.Block() == load.Block() {
+				if !instrDominates(y, load) {
+					return false
+				}
+				// a loop through this block would run the store again after the load
+				if blockReaches(load.Block(), load.Block()) {
+					return false
+				}
+				continue
+			}
+			if blockReaches(load.Block(), y.Block()) {
+				return false
+			}
+		case *ssa.UnOp, *ssa.DebugRef:
+		case *ssa.MakeClosure:
+			fn, ok := y.Fn.(*ssa.Function)
+			if !ok {
+				return false
+			}
+			for i, b := range y.Bindings {
+				if b != ssa.Value(cell) || i >= len(fn.FreeVars) {
+					continue
+				}
+				fv := fn.FreeVars[i]
+				for _, r2 := range *fv.Referrers() {
+					if u, ok := r2.(*ssa.UnOp); ok && u.Op == token.MUL {
+						continue
+					}
+					if _, ok := r2.(*ssa.DebugRef); ok {
+						continue
+					}
+					return false
+				}
+			}
+		default:
+			return false
+		}
+	}
+	return true
 }
